@@ -20,7 +20,8 @@ pub const PARAMS: ModelParams = ModelParams {
 
 pub fn strategy() -> BoxedStrategy<ModelCase> {
     prop_oneof![
-        6 => model_case(PARAMS),
+        3 => model_case(PARAMS),
+            4 => crate::gen::model::model_case_biased(PARAMS),
         2 => model_case(ModelParams { max_vars: 2, max_cons: 3, depth: 4, ..PARAMS }),
         1 => model_case(ModelParams { inexact: true, ..PARAMS }),
         2 => model_case(ModelParams { unbounded_decl: false, max_vars: 3, ..PARAMS }),
